@@ -145,6 +145,97 @@ def identity_obligation(logic, funcs):
     return discharge(Obligation(f'C01.identity.{L}.forward', not bad, kind='enum', where=fi.where,
                                 meta=dict(logic=L, clause='a=b at w and P(..a..) at w\' may add P(..b..) only when w\' = w, at that world', cex=dict(bad=sorted(set(bad))[:4]))))
 
+class BranchHolding(R.BranchTok):
+    "a branch on which exactly the given (sentence, world) pairs are present: has() is decided, not abstract"
+    def __init__(self, present): super().__init__(); self.present = list(present)
+    def sym_getattr(self, it, name):
+        if name == 'has':
+            def has(it, node):
+                key = (node.props.get('sentence'), node.props.get('world'))
+                return any(key == k for k in self.present)
+            return Contract(has, 'Branch.has')
+        return super().sym_getattr(it, name)
+
+def identity_scenarios(logic, funcs):
+    """cpl.IdentityIndiscernability._get_node_targets interpreted for the node a=b on a branch whose predicated nodes are
+    {a=b (this node), a=b (a second node), b=a, F(a), G(c,b)} at one world, for EVERY iteration order of the PredNodes set and
+    two branch contents.  -> (per-order target sets, expected set per content, where) or a Result when outside the subset"""
+    from pytableaux.proof import helpers as H, common as C
+    from pytableaux.lang import Predicate
+    import itertools as _it
+    L = logic.Meta.name
+    rc = None
+    for r in RS.rule_classes(logic):
+        if r.__name__ == 'IdentityIndiscernability': rc = r
+    if rc is None: return None
+    for c in rc.__mro__:
+        if '_get_node_targets' in c.__dict__: fn, defc = c.__dict__['_get_node_targets'], c; break
+    fi = source.of_function(fn)
+    funcs[fi.key] = dict(file=fi.relfile, qualname=fi.qualname, lines=f'{fi.lineno}-{fi.end_lineno}', sha1=fi.sha1)
+    world = identity_world()
+    a, b, c_ = Param('const', 'a'), Param('const', 'b'), Param('const', 'c')
+    w = WorldTok('w') if logic.Meta.modal else None
+    cls = C.SentenceWorldNode if w is not None else C.SentenceNode
+    def node(s):
+        pr = dict(sentence=s)
+        if w is not None: pr['world'] = w
+        return NodeVal(cls, pr)
+    I = Predicate.Identity
+    ni = node(PredTerm(I, (a, b)))
+    others = [node(PredTerm(I, (a, b))), node(PredTerm(I, (b, a))), node(PredTerm('F', (a,))), node(PredTerm('G', (c_, b)))]
+    full = {(repr(PredTerm('F', (b,))), repr(w)), (repr(PredTerm('G', (c_, a))), repr(w))}
+    contents = {'empty': [], 'F(b) present': [(PredTerm('F', (b,)), w)]}
+    out = {}
+    for cname, present in contents.items():
+        want = full - {(repr(s_), repr(w_)) for s_, w_ in present}
+        per_order = {}
+        for perm in _it.permutations(range(5)):
+            nodes = [([ni] + others)[i] for i in perm]
+            def run(path, nodes=nodes, present=present):
+                it = Interp(path, world)
+                rm = IdentRuleModel(rc, logic, helpers={H.PredNodes: PredNodesModel(nodes)})
+                return it.iterate(it.call_source(fi, fn, defc, [rm, ni, BranchHolding(present)], {}, recv=rm))
+            try:
+                prs = explore(run)
+            except Outside as e:
+                return Result(f'identity.{L}', 'unknown', detail=f'outside subset: {e}', where=fi.where)
+            got = set()
+            for pr in prs:
+                if pr.kind != 'return': got.add(('exception', str(pr.value))); continue
+                for t in pr.value:
+                    (g,) = t['adds']; (nd,) = g
+                    got.add((repr(nd.props['sentence']), repr(nd.props.get('world'))))
+            per_order[perm] = got
+        out[cname] = (per_order, want)
+    return out, fi.where
+
+def identity_order_obligations(logic, funcs, prefix):
+    """-> Results.  <prefix>.identity.<L>.complete: in every iteration order the node a=b is offered exactly the substitution
+    instances missing from the branch; <prefix>.identity.<L>.order-insensitive: the offered set is the same in every order"""
+    L = logic.Meta.name
+    r = identity_scenarios(logic, funcs)
+    if r is None: return []
+    if isinstance(r, Result):
+        return [Result(f'{prefix}.identity.{L}.complete', 'unknown', detail=r.detail, where=r.where)]
+    out, where = r
+    names = {0: 'a=b (the node itself)', 1: 'a=b (second node)', 2: 'b=a', 3: 'F(a)', 4: 'G(c,b)'}
+    bad_c = bad_o = None
+    for cname, (per_order, want) in out.items():
+        sets = {}
+        for perm, got in per_order.items():
+            sets.setdefault(frozenset(got), perm)
+            if got != want and bad_c is None:
+                bad_c = dict(branch=cname, order=[names[i] for i in perm], offered=sorted(map(list, got)), wanted=sorted(map(list, want)))
+        if len(sets) > 1 and bad_o is None:
+            (s1, p1), (s2, p2) = list(sets.items())[:2]
+            bad_o = dict(branch=cname, order_1=[names[i] for i in p1], offered_1=sorted(map(list, s1)), order_2=[names[i] for i in p2], offered_2=sorted(map(list, s2)))
+    res = []
+    res.append(discharge(Obligation(f'{prefix}.identity.{L}.complete', bad_c is None, kind='enum', where=where,
+               meta=dict(logic=L, orders=120, clause='IdentityIndiscernability offers a=b every substitution instance at its world that is not yet on the branch, whatever the order of the PredNodes set', cex=bad_c))))
+    res.append(discharge(Obligation(f'{prefix}.identity.{L}.order-insensitive', bad_o is None, kind='enum', where=where,
+               meta=dict(logic=L, orders=120, clause='the set of targets IdentityIndiscernability offers does not depend on the iteration order of the (hash-ordered) PredNodes set', cex=bad_o))))
+    return res
+
 class PredTerm(STerm):
     "predicated sentence P(params)"
     def __init__(self, pred, params):
@@ -290,6 +381,7 @@ def run(ctx):
     from checks import c06
     c06.append_obligations(ctx, 'C01.fresh', only=('fresh-constant', 'fresh-world'))
     ctx.replayers['C01.fresh.'] = c06.replay_history
+    c06.bounded_histories(ctx, 'C01.fresh', depth=3)
     bounded_soundness(ctx)
     from checks import c04
     ctx.replayers['C01.rule.'] = lambda r: c04.replay(dict(obligation=r.name, counterexample=r.cex, meta=r.meta))
@@ -307,6 +399,9 @@ def replay_identity(r):
                 call=f'Tableau("{L}", Argument("Fn:Imn:MFm")).build().valid')
 
 def replay(payload):
+    if payload.get('kind') == 'bounded' and 'history' in (payload.get('input') or {}):
+        from checks import c06
+        return c06.replay(payload)
     if payload.get('kind') == 'bounded':
         from pytableaux.lang import Argument
         from bounded import prover as P
